@@ -1,4 +1,5 @@
 mod c18;
+mod prover;
 
 fn main() {
     let args = vcore::parse_args();
